@@ -630,8 +630,13 @@ protected:
                          , png_size_t length
                          )
     {
-        static_cast<Device*>(png_get_io_ptr(png_ptr) )->read( data
-                                                            , length );
+        // libpng expects the callback not to return on a short read: it would go on parsing stale buffer contents
+        // (a file truncated inside a chunk never terminated)
+        if( static_cast<Device*>(png_get_io_ptr(png_ptr) )->read( data
+                                                               , length ) < length )
+        {
+            png_error( png_ptr, "unexpected end of png data" );
+        }
     }
 
     static void flush( png_structp png_ptr )
